@@ -309,8 +309,10 @@ PROPS["C03"] = {
                   "unchanged (C14 model); grid placement is total (no panic, no integer overflow, no fuel exhaustion) for explicit "
                   "counts, lines and spans <= B and <= N children with (N+5)(B+2) <= 16000 (C03Grid.placement_total); the WHOLE grid "
                   "program (Model/Grid.lean, every panic of the Rust an explicit outcome) cannot panic whenever the decidable "
-                  "precondition gridSafeB holds (EvalGrid.grid_noPanic_of_gridSafeB: no auto-repeat, item track indexes and absolute "
-                  "children's lines inside the track vectors); the flex freeze loop, the fr loops and the distribution loop terminate; "
+                  "precondition gridSafeB holds (EvalGrid.grid_noPanic_of_gridSafeB: no auto-repeat, item track indexes inside the track "
+                  "vectors, track vectors with one entry per line and track, no i16 overflow when an absolutely positioned child's lines "
+                  "are resolved; that those lines lie inside the track vectors is no longer a condition: try_into_track_vec_index answers "
+                  "None outside the implicit grid, EvalGrid.absTrackIndexes_in); the flex freeze loop, the fr loops and the distribution loop terminate; "
                   "zero-size auto-repeat is total. Observed, not proved: no panic, hang, blow-up or non-finite output of the real code "
                   "on the sampled bounded domain in release and debug builds.",
     "level_note": "partial: totality of unmodelled code is sampled by a supervised worker process. Known finding: "
@@ -799,11 +801,21 @@ EVALGRID_C12 = ["C12Grid." + n for n in [
 
 EVALGRID_C06_MODULES = ["TaffyVerif.Props.EvalGridAbs"]
 EVALGRID_C06 = ["EvalGridAbs." + n for n in [
-    "runAns_absEquiv", "w_agree", "w_line", "w_auto", "grid_not_AbsBlind", "grid_AbsBlind_partial",
-    "linesAgree_of_auto", "grid_AbsBlind_auto", "gridN_AbsBlind", "abs_invisible_all_trees_partial",
-    "abs_invisible_pass_all_trees_partial", "treeAB_rel", "treeA_auto", "treeB_auto"]] + [
-    "GridAbs.gridAlg_absEquiv", "GridAbs.gridAlgN_AbsBlind", "GridAbs.eval_gridAlgN", "GridAbs.absAutoLinesB_iff",
-    "GridRel.computeGridLayoutE_rel", "GridStages.computeGridLayoutE_eq", "GridKernel.gridAlgK_eq"]
+    "runAns_absEquiv", "w_agree", "w_agree_overflow", "w_line", "w_auto", "w_overflow", "grid_not_AbsBlind",
+    "grid_AbsBlind_upToPanic_partial", "grid_AbsBlind_noPanic_partial", "grid_AbsBlind_safe", "grid_AbsBlind_partial",
+    "linesAgree_of_auto", "grid_AbsBlind_auto", "gridN_AbsBlind", "gridC_AbsBlind",
+    "abs_invisible_all_trees_calm_partial", "abs_invisible_pass_all_trees_calm_partial",
+    "abs_invisible_all_trees_gridCalmB", "abs_invisible_all_trees_partial",
+    "abs_invisible_pass_all_trees_partial", "w_safe", "old_witness_invisible", "treeAB_rel", "treeA_auto", "treeB_auto",
+    "treeCB_rel", "treeC_calm", "treeB_calm"]] + [
+    "GridAbs.gridAlg_relW", "GridAbs.gridAlg_absEquiv_noErr", "GridAbs.gridAlg_absEquiv", "GridAbs.gridAlg_absEquiv_autoR",
+    "GridAbs.gridAlg_absEquiv_autoL", "GridAbs.absStep_weak", "GridAbs.gridAlgN_AbsBlind", "GridAbs.gridAlgC_AbsBlind",
+    "GridAbs.eval_gridAlgN", "GridAbs.GridAbsCalm_agree", "GridAbs.GridCalm_GridAbsCalm", "GridAbs.GridAbsAuto_GridAbsCalm",
+    "GridAbs.absAutoLinesB_iff", "GridAbs.noErr_iff_noPanic",
+    "GridRel.computeGridLayoutE_relW", "GridRel.PRelW.bindCont", "GridRel.PRelW.to_PRel",
+    "GridRel.computeGridLayoutE_rel", "GridStages.computeGridLayoutE_eq", "GridKernel.gridAlgK_eq",
+    "EvalGrid.gridSafeB_sound", "EvalGrid.gridCalmB_sound", "EvalGrid.tryIntoTrackVecIndex_spec",
+    "EvalGrid.absTrackIndexes_in"]
 
 EVALGRID_C04_MODULES = ["TaffyVerif.Props.EvalGridScale"]
 EVALGRID_C04 = ["C04Grid." + n for n in [
@@ -873,7 +885,7 @@ PROPS["C01"] = {
                     "histories respect the precondition: ids live, attach only detached nodes (or via set_children), no cycles, in-range ranges"],
     "undischarged": ["all of C01's theorems (to be added by the coordinator); real-mode equality on the three container algorithms is sampled"],
     "level_text": "Theorems over the tree-level evaluator (Model/Eval.lean, every dispatch, every algorithm bundle): the OUTPUT of a node is a pure function of its subtree and input (outFresh); an exact (full-input) memo whose entries agree with outFresh returns outFresh and stays valid (outputs_transparent_exact); edits that replace a subtree and clear the memos on the path to the root — what the mutators plus mark_dirty achieve, by C15's invariant — preserve validity, so after ANY history of edits and passes the output for the root equals the output of a cache-free pass over a freshly built tree (history_independent_outputs_exact). For the stored LAYOUTS the statement is false in general: layouts_not_transparent_witness is a machine-checked counterexample in which every program has the shape '(ComputeSize)* then PerformLayout per child' (a ComputeSize evaluation rewrites descendants between a PerformLayout store and a later hit), and the same scenario was then reproduced on the real code (known finding c01-stale-layout-after-compute-size). Under the trace condition QuietRun (no body evaluation of a node between a PerformLayout store and a hit on it) and PLCovers, layouts after any quiet history equal those of a fresh cache-free pass; PLCovers is proved for the block model, so on trees of block containers and leaves the theorem needs QuietRun only. On the real code: random histories of every mutator interleaved with passes on any root are compared with a freshly built tree, in four cache modes (real, real+quiet hits, exact keys, exact+quiet), every discrepancy is attributed by the mode that removes it, and a cache-conformance oracle checks every hit of the real trace against cache.rs' rule.",
-    "level_note": 'partial: equality of stored layouts under the real nine-slot cache is NOT a theorem (it is false: known findings lossy key, stale layouts after a ComputeSize evaluation, attach under a clean hidden node); with exact keys it is proved under QuietRun/PLCovers; PLCovers is PROVED for block (EvalBlock.block_PLCovers), flexbox (EvalFlex.flex_PLCovers) and — for every run that does not panic — grid (EvalGrid.grid_PLCovers_partial; Model/Grid.lean, tied by the GRID correspondence). AlgPLCovers for grid AS STATED is false of the model (EvalGrid.not_grid_PLCovers: a child with grid-column 32767 / span 2 overflows i16 in the size estimate — a panic of the implementation in a debug build, replayed — and a panicking run lays out nothing), so the layout theorems hold for ALL style trees whose grid containers cannot panic (EvalGrid.GridCalm; single_pass_layouts_quiet_all_trees, history_layouts_quiet_all_trees), under the trace condition QuietRun only; GridCalm follows from an executable check (EvalGrid.gridCalmB: no auto-fill/auto-fit repetition, the setup does not panic, item track indexes and the lines of absolutely positioned children inside the track vectors; EvalGrid.gridSafeB_sound proves that then NO run panics, for every input and all child answers). Axioms: propext, Classical.choice, Quot.sound.',
+    "level_note": 'partial: equality of stored layouts under the real nine-slot cache is NOT a theorem (it is false: known findings lossy key, stale layouts after a ComputeSize evaluation, attach under a clean hidden node); with exact keys it is proved under QuietRun/PLCovers; PLCovers is PROVED for block (EvalBlock.block_PLCovers), flexbox (EvalFlex.flex_PLCovers) and — for every run that does not panic — grid (EvalGrid.grid_PLCovers_partial; Model/Grid.lean, tied by the GRID correspondence). AlgPLCovers for grid AS STATED is false of the model (EvalGrid.not_grid_PLCovers: a child with grid-column 32767 / span 2 overflows i16 in the size estimate — a panic of the implementation in a debug build, replayed — and a panicking run lays out nothing), so the layout theorems hold for ALL style trees whose grid containers cannot panic (EvalGrid.GridCalm; single_pass_layouts_quiet_all_trees, history_layouts_quiet_all_trees), under the trace condition QuietRun only; GridCalm follows from an executable check (EvalGrid.gridCalmB: no auto-fill/auto-fit repetition, the setup does not panic, item track indexes inside the track vectors, no i16 overflow when the lines of absolutely positioned children are resolved; EvalGrid.gridSafeB_sound proves that then NO run panics, for every input and all child answers). Axioms: propext, Classical.choice, Quot.sound.',
     "technique": 'Lean 4 refinement proof (exact memo vs cache-free evaluator, edits, histories) + counterexample + differential histories against fresh trees in four cache modes',
     "undischarged": ['PLCovers is discharged for block, flexbox and the non-panicking runs of grid (EvalGrid.grid_PLCovers_partial); what remains for grid is the absence of panics (EvalGrid.GridCalm is a hypothesis on the tree: no grid container outside display:none subtrees can panic; it is implied by the executable check EvalGrid.gridCalmB, which excludes auto-fill/auto-fit templates and containers whose setup overflows); QuietRun is a trace condition (monitored on the implementation through the quiet-hit cache mode)', 'real-cache layout transparency: false (three known findings)'],
 }
@@ -1029,16 +1041,19 @@ PROPS["C06"] = {
             "EVERY non-root absolute node a with display != none: tree B = A with a's subtree replaced by a bare "
             "Style{position:Absolute,..DEFAULT} leaf. Predicate: every node outside a's subtree has identical location, size, "
             "scrollbar_size, border, padding, margin (content_size and order may differ). A mismatch with a grid parent and a non-auto "
-            "grid-row/column on a is the known finding c06-abs-grid-implicit-tracks; any other is a violation. Fixed first: abs child "
-            "with grid-row 5 in an auto-rows-30 grid (known finding) and large abs children in block and column-flex containers. "
+            "grid-row/column on a carries the signature c06-abs-grid-implicit-tracks (a known finding until its repair; now status "
+            "fixed, so it is a violation like any other). Fixed first: abs child with grid-row 5 in an auto-rows-30 grid (the "
+            "witness of that finding: the container must stay 100 x 30), an abs child with lines far outside the grid in both axes "
+            "next to one whose lines exist, and large abs children in block and column-flex containers. "
             "Non-trivial = the neutralised subtree differed from the bare leaf and was not below a hidden node.",
     "trusted_base": _PAIRS_TRUSTED,
-    "assumptions": ["known finding c06-abs-grid-implicit-tracks: an absolutely positioned grid child's explicit lines create "
-                    "implicit tracks (attribution uses the grid-line fields, which only the harness sees)"],
+    "assumptions": ["a grid container whose run panics is outside the theorems' quantifier (GridAbs.GridAbsCalm): the checked i16 "
+                    "arithmetic on an absolutely positioned child's own grid lines can overflow (grid-row: 32767 / span 2), "
+                    "EvalGridAbs.grid_not_AbsBlind"],
     "level_text": "Theorems over the tree-level evaluator, for every tree, state, input, fuel and each of the three cache implementations: if the container algorithms' programs are equivalent up to calls/set-layouts addressed to absolutely positioned children and up to the contentSize of the result (AbsBlind), then replacing an absolutely positioned box (style and subtree) by any other absolutely positioned box yields outputs equal up to contentSize and equal order, location, size, scrollbar, border, padding and margin at every node outside the absolute subtrees. On the real code the clause is checked on generated tree pairs; the grid size estimate's dependence on an absolute child's grid lines is the known finding.",
-    "level_note": 'partial: AbsBlind is a named hypothesis about the container algorithms; it is PROVED for the block model (EvalBlock.block_AbsBlind) and for the whole flexbox program (EvalFlexAbs.flex_AbsBlind), so on trees of block containers, flexbox containers and leaves (FlexTrees.NoGrid) the clause holds unconditionally (EvalFlexAbs.abs_invisible_*_block_flex_leaf_trees); for the whole grid program (Model/Grid.lean, tied by the GRID correspondence) AbsBlind is FALSE (EvalGridAbs.grid_not_AbsBlind: the known fixed case — grid 100 wide, auto-rows 30, an in-flow 10x10 child, an absolute child with grid-row-start 5: container 150 high vs 30 — proved at Rat and replayed on the real code) and PROVED when the absolutely positioned children of the two lists have the same grid_row/grid_column (EvalGridAbs.grid_AbsBlind_partial; in particular when all have auto lines: grid_AbsBlind_auto, decidable), so on trees of leaves, block, flexbox and grid containers in which every absolutely positioned child of a grid container has auto grid lines the clause holds (EvalGridAbs.abs_invisible_all_trees_partial, abs_invisible_pass_all_trees_partial). Known finding: grid (c06-abs-grid-implicit-tracks). Trusted: Lean kernel; Eval model. Axioms: propext, Classical.choice, Quot.sound.',
+    "level_note": 'partial: AbsBlind is a named hypothesis about the container algorithms; it is PROVED for the block model (EvalBlock.block_AbsBlind) and for the whole flexbox program (EvalFlexAbs.flex_AbsBlind), so on trees of block containers, flexbox containers and leaves (FlexTrees.NoGrid) the clause holds unconditionally (EvalFlexAbs.abs_invisible_*_block_flex_leaf_trees). For the whole grid program (Model/Grid.lean, tied by the GRID correspondence), since the repair of c06-abs-grid-implicit-tracks (absolutely positioned children are filtered out of the grid size estimate; a line of theirs outside the implicit grid is auto: try_into_track_vec_index): the two programs are related up to calls/layouts addressed to absolutely positioned children, up to contentSize and UP TO PANICS for ALL child lists (EvalGridAbs.grid_AbsBlind_upToPanic_partial), hence AbsBlind holds for every pair of runs that cannot panic, whatever the grid lines (grid_AbsBlind_noPanic_partial; decidable sufficient condition grid_AbsBlind_safe = EvalGrid.gridSafeB), and panics included when the lines agree (grid_AbsBlind_partial, grid_AbsBlind_auto); the witness of the repaired finding now satisfies invisibility (w_line: container 30 high; old_witness_invisible). AbsBlind AS STATED is still false of the model (EvalGridAbs.grid_not_AbsBlind): an absolutely positioned child with grid-row 32767 / span 2 overflows i16 when its OWN lines are resolved (a panic of the implementation in a debug build, replayed) and a panicking run lays out nothing. Tree level: the clause holds for ALL trees of leaves, block, flexbox and grid containers in which every grid container cannot panic or has only auto-line absolutely positioned children (EvalGridAbs.abs_invisible_all_trees_calm_partial, abs_invisible_pass_all_trees_calm_partial; GridAbs.GridAbsCalm; follows from the executable check EvalGrid.gridCalmB: abs_invisible_all_trees_gridCalmB; the theorem of before the repair, abs_invisible_all_trees_partial, is a corollary). Trusted: Lean kernel; Eval model. Axioms: propext, Classical.choice, Quot.sound.',
     "technique": 'Lean 4 simulation-up-to proof over the interaction-program evaluator + metamorphic tree pairs on the real TaffyTree',
-    "undischarged": ['AbsBlind for grid: FALSE as stated (EvalGridAbs.grid_not_AbsBlind, known finding c06-abs-grid-implicit-tracks: the grid size estimate iterates over absolutely positioned children); proved for child lists whose absolutely positioned children agree on their grid lines (EvalGridAbs.grid_AbsBlind_partial) and lifted to trees whose grid containers have only auto-line absolute children (EvalGridAbs.abs_invisible_all_trees_partial)'],
+    "undischarged": ['AbsBlind for grid on runs that panic: AlgAbsBlind gridAlg is FALSE as stated (EvalGridAbs.grid_not_AbsBlind: i16 overflow on an absolutely positioned child\'s own lines, e.g. grid-row 32767 / span 2); proved up to panics for all child lists (grid_AbsBlind_upToPanic_partial), for all runs that cannot panic (grid_AbsBlind_noPanic_partial) and lifted to all trees whose grid containers cannot panic or have only auto-line absolute children (abs_invisible_all_trees_calm_partial)'],
 }
 
 PROPS["C09"] = {
@@ -1167,7 +1182,8 @@ TIE_RESOLVE = ["TieResolve." + t for t in (
     "size_lp_resolve_or_zero_eq rect_lp_opt_resolve_or_zero_eq rect_lpa_opt_resolve_or_zero_eq "
     "rect_lp_size_resolve_or_zero_eq rect_lpa_size_resolve_or_zero_eq").split()]
 TIE_GRID = ["TieGrid." + t for t in (
-    "into_origin_zero_line_eq oz_add_eq oz_sub_eq implied_negative_eq implied_positive_eq u16_then_usize track_counts_len_eq "
+    "into_origin_zero_line_eq oz_add_eq oz_sub_eq into_track_vec_index_eq try_into_track_vec_index_eq implied_negative_eq "
+    "implied_positive_eq u16_then_usize track_counts_len_eq "
     "implicit_start_line_eq implicit_end_line_eq oz_line_to_next_track_eq track_to_prev_oz_line_eq "
     "into_origin_zero_placement_eq into_origin_zero_eq indefinite_span_eq is_definite_oz_eq is_definite_raw_eq "
     "resolve_definite_grid_lines_eq resolve_indefinite_grid_tracks_eq").split()]
@@ -1355,7 +1371,8 @@ _add_c03_finite()
 PROPS["C03"]["modules"] = list(PROPS["C03"]["modules"]) + [m for m in EVALGRID_MODULES if m not in PROPS["C03"]["modules"]]
 PROPS["C03"]["theorems"] = list(PROPS["C03"]["theorems"]) + [
     "EvalGrid.grid_noPanic_of_gridSafeB", "EvalGrid.noPanic_computeGridLayoutE", "EvalGrid.gridSafeB_sound",
-    "EvalGrid.GSafe_trackSizingAlgorithmM"]
+    "EvalGrid.GSafe_trackSizingAlgorithmM", "EvalGrid.tryIntoTrackVecIndex_spec", "EvalGrid.absTrackIndexes_in",
+    "EvalGrid.GSafe_hiddenAbsLoop"]
 
 # C07 / C11 lifted from the component functions to the WHOLE interaction programs (Model/Flex.lean, Model/Block.lean,
 # Model/Grid.lean): the theorems speak about the layouts the programs hand to set_unrounded_layout, in every PerformLayout
